@@ -406,7 +406,7 @@ class ErrorCase:
 
 @st.composite
 def error_cases(draw: Any) -> ErrorCase:
-    rule = V.RULES[draw(st.integers(0, (1 << 20) - 1)) % len(V.RULES)]
+    rule = V.WEIGHTED_RULES[draw(st.integers(0, (1 << 20) - 1)) % len(V.WEIGHTED_RULES)]
     return ErrorCase(draw(V.mutants(rules=[rule], shift=True)), draw(st.integers(0, 2)) == 1)
 
 
